@@ -10,7 +10,7 @@ RULE = ("cases = generated register layout (addr width 1-8, data width 1-32, map
         "re-randomised every cycle; distinct = distinct layout+stimulus; non-trivial = run with >= 1 multi-chunk "
         "snapshot evaluation (chunk k>0) made after the register's value had changed since capture")
 ASSUMPTIONS = ["Amaranth simulator is faithful", "timing model S1/S3/A1 of DESIGN.md C04 (models/csrmux.py)",
-               "layouts on which elaboration diverges (known finding F3, decided by C19) are skipped and counted"]
+               "layouts whose shadow_overlaps limit no shadow size can satisfy are refused at elaboration (finding F3, fixed; checked by C19): skipped and counted"]
 REQUIRED = ["S1_r_stb", "S3_zero_when_idle", "A1_first_chunk", "A1_snapshot", "A1_multi_chunk_after_value_change"]
 
 
@@ -32,6 +32,6 @@ def run_case(case):
 LEVEL_TEXT = ("Online trace monitor over simulations of the real csr.Multiplexer on generated layouts: read strobes, "
               "zero-when-idle and returned data are compared on every cycle with a layout-only timing model; snapshot "
               "atomicity is asserted inside transactions the monitor itself recognises as protocol-conforming.")
-LEVEL_NOTE = "Trusted: Amaranth simulator, CPython, models/csrmux.py. F3 layouts (non-terminating elaboration) are skipped here and reported by C19."
+LEVEL_NOTE = "Trusted: Amaranth simulator, CPython, models/csrmux.py. Layouts with an unsatisfiable sharing limit are refused at elaboration and skipped here (C19 checks the refusal)."
 TECHNIQUE = "runtime monitoring: per-cycle trace checker with a layout-only reference model over randomized simulation"
 DESIGN_REF = "DESIGN.md section 4, C04/C05"
